@@ -211,10 +211,13 @@ func c16prop(r *simkit.Run) {
 	if fault == "none" && oddTarget == "" && !spec.lateProbe && rapid.IntRange(0, 15).Draw(rt, "listener-breaks-on-disconnect") == 0 {
 		spec.listenerBreaksOnDisconnect = true
 	}
+	if fault == "none" && oddTarget == "" && !spec.lateProbe && !spec.listenerBreaksOnDisconnect && rapid.IntRange(0, 15).Draw(rt, "handler-ends-its-goroutine") == 0 {
+		spec.goroutineExits = rapid.IntRange(1, 2).Draw(rt, "goroutine-exits-when")
+	}
 	// By draw the client of a fault-free exchange is a slow one, and while the proxy waits for it with response bytes in
 	// hand, another client is served a long response of its own through a forwarder of its own, start to end.
 	var res exchangeResult
-	if fault == "none" && oddTarget == "" && !spec.lateProbe && !spec.listenerBreaksOnDisconnect && n >= 60000 && rapid.IntRange(0, 2).Draw(rt, "slow-client-and-a-second-exchange") == 0 {
+	if fault == "none" && oddTarget == "" && !spec.lateProbe && !spec.listenerBreaksOnDisconnect && spec.goroutineExits == 0 && n >= 60000 && rapid.IntRange(0, 2).Draw(rt, "slow-client-and-a-second-exchange") == 0 {
 		sc := &slowClient{window: 2048, readFirst: rapid.IntRange(1, 3000).Draw(rt, "slow-client-reads-first"), paused: make(chan struct{}), resume: make(chan struct{})}
 		spec.slow = sc
 		obody := bytes.Repeat([]byte("#"), 100000)
@@ -259,6 +262,29 @@ func c16prop(r *simkit.Run) {
 		}
 		r.Nontrivial()
 		r.SetDigest(uint64(conn*10 + disc))
+		return
+	}
+	if spec.goroutineExits != 0 {
+		// the serving goroutine was ended from inside the chain (runtime.Goexit, as t.FailNow or a framework's abort
+		// does): nothing propagates and recover() sees nothing, but deferred calls run - forwarding was ended, so the
+		// listener is told 'disconnected', once, after the inner handler. What the client gets is the server's business.
+		r.Fault("handler-ends-its-goroutine")
+		conn, disc := 0, 0
+		for _, e := range res.events {
+			if e.state == 0 {
+				conn++
+			} else {
+				disc++
+			}
+		}
+		if conn != 1 || disc != 1 {
+			r.Fail("listener-unpaired", "the handler behind the listener ended its goroutine (runtime.Goexit): the listener was told 'connected' %d times and 'disconnected' %d times for one forwarded request %s", conn, disc, ctxt)
+		}
+		if res.order != "connected,inner-start,inner-end,disconnected" {
+			r.Fail("listener-order", "order of events around a forwarded request whose handler ended its goroutine: %s %s", res.order, ctxt)
+		}
+		r.Nontrivial()
+		r.SetDigest(uint64(conn*10+disc) + 100*uint64(spec.goroutineExits))
 		return
 	}
 	if strings.Contains(res.serverLog, "panic serving") {
